@@ -291,7 +291,7 @@ def step (s : St) (line : String) : St × String :=
     match po a, po b, parseOptNat c, parseBool acc with
     | some mn, some mx, some d, some acc =>
       let ch : ParamChange := { minValidators := mn, maxValidators := mx, dist := d }
-      let want := changeAccepted ch
+      let want := changeAcceptedFor s.p ch
       if acc == want then (s, "ok")
       else if acc then
         -- a non-positive limit got through the parameter-change validation
